@@ -1,6 +1,105 @@
-(* C07 - placeholder until the proofs are in: the check already runs the correspondence. *)
-From OV Require Import Emu.EmuCoreDefs.
-Theorem C07_model_total : forall st who th loom pid mdl kind tid bid,
-  (exists s, task_op st who th loom pid mdl kind tid bid = Ok s) \/ (exists e, task_op st who th loom pid mdl kind tid bid = Err e).
-Proof. intros. destruct (task_op st who th loom pid mdl kind tid bid); [left|right]; eexists; reflexivity. Qed.
-Print Assumptions C07_model_total.
+(* C07 - Task life-cycle: bodies follow their state machine, never run twice at once.
+   Emulator side: task_op / task_event of Emu/EmuCoreDefs.v (src/emu/body.c, task.c, update_task of
+   nosv/event.c and nanos6/event.c); spec: Emu/TaskSpecDefs.v. *)
+From Coq Require Import ZArith List Bool.
+From OV Require Import Emu.EmuCoreDefs Emu.TaskSpecDefs Proofs.EmuCoreProofs Proofs.TaskProofs Proofs.EmuCoreWf.
+Import ListNotations.
+Local Open Scope Z_scope.
+
+(* a task event on a body is accepted exactly when the documented life-cycle allows it:
+   created -> running (fresh body; several bodies only for parallel tasks; dead -> running only for
+   resurrectable tasks; never a body that is on a stack; nested only over a paused body unless the
+   task on top relaxes nesting), running -> paused (pausable tasks only), paused -> running,
+   running -> dead, the last three only for the body on top of the calling thread's own stack *)
+Theorem C07_transition_iff : forall st who th loom pid mdl kind tid bid,
+  (exists st', task_op st who th loom pid mdl kind tid bid = Ok st') <-> legal st who th loom pid mdl kind tid bid.
+Proof. exact task_op_iff. Qed.
+Print Assumptions C07_transition_iff.
+
+(* in every state reached by accepted events a body is on some thread's stack exactly while it is
+   running or paused (so created and dead bodies are on no stack) *)
+Theorem C07_on_stack_iff_live : forall sx evs st tl,
+  run_from sx (init sx) evs = Ok (st, tl) ->
+  forall tk, In tk (tasks st) -> forall b, In b (tk_bodies tk) ->
+    (b_on b = None <-> (b_state b = BCreated \/ b_state b = BDead)).
+Proof. intros sx evs st tl H. exact (run_from_OnInv sx evs (init sx) st tl (OnInv_init sx) H). Qed.
+Print Assumptions C07_on_stack_iff_live.
+
+(* never twice at once: a body that is running or paused anywhere cannot be executed *)
+Theorem C07_never_twice_at_once : forall st who th loom pid mdl tid bid st',
+  OnInv st -> task_op st who th loom pid mdl K_EXEC tid bid = Ok st' ->
+  forall ti tk bi b, find_task st loom pid mdl tid = Some (ti, tk) -> find_body tk bid = Some (bi, b) ->
+    b_on b = None /\ b_state b <> BRunning /\ b_state b <> BPaused.
+Proof. exact execute_needs_free_body. Qed.
+Print Assumptions C07_never_twice_at_once.
+
+(* only the body on top of the calling thread's stack changes state *)
+Theorem C07_only_own_top : forall st who th loom pid mdl kind tid bid st',
+  kind <> K_EXEC -> task_op st who th loom pid mdl kind tid bid = Ok st' ->
+  exists ti tk bi b, find_task st loom pid mdl tid = Some (ti, tk) /\ find_body tk bid = Some (bi, b) /\
+    b_on b = Some who /\ is_top th mdl tid bid = true.
+Proof. exact other_ops_need_own_top. Qed.
+Print Assumptions C07_only_own_top.
+
+Theorem C07_parallel_cannot_pause : forall st who th loom pid mdl tid bid st' ti tk,
+  find_task st loom pid mdl tid = Some (ti, tk) -> tk_pause tk = false ->
+  task_op st who th loom pid mdl K_PAUSE tid bid = Ok st' -> False.
+Proof. exact parallel_cannot_pause. Qed.
+Print Assumptions C07_parallel_cannot_pause.
+
+(* the invariant is preserved by every event of the emulator core *)
+Theorem C07_invariant_step : forall sx st who ev st1 dirty,
+  OnInv st -> core_step sx st who ev = Ok (st1, dirty) -> OnInv st1.
+Proof. exact core_step_OnInv. Qed.
+Print Assumptions C07_invariant_step.
+
+(* VIEWS (partial): the rows of the task channels show the channel value exactly while the thread runs
+   (C06_tracked_rows, proved for all events including the task events).  That the channels hold the
+   running body's task id / type / body id / app id / rank and are empty otherwise is what task_event
+   writes (chan_body_running / chan_body_stopped / chan_body_switch); it is checked end to end against
+   ovniemu on every run but is not yet stated as a theorem.  Name kept visible: C07_views_partial. *)
+Theorem C07_views_partial : forall sx evs1 evs2 st tl,
+  types_ok sx -> any_init_ok sx ->
+  run_from sx (init sx) (evs1 ++ evs2) = Ok (st, tl) ->
+  exists st1 tl1, run_from sx (init sx) evs1 = Ok (st1, tl1) /\
+    forall k, (k < length (s_chans sx))%nat ->
+      let sp := spec_of sx k in
+      forall t, (t < length (s_threads sx))%nat ->
+        EmitProofs.shown (lines_of tl1) (false, t, cs_type sp) =
+        EmitProofs.printed (cs_flags sp)
+          (if mode_ok (cs_thtrack sp) (thread_state_of st1 t) then raw_read sp (raw_of st1 t k) else None).
+Proof.
+  intros sx evs1 evs2 st tl Hty Hany H.
+  destruct (tracked_rows sx evs1 evs2 st tl Hty Hany H) as (st1 & tl1 & E & K).
+  exists st1, tl1. split; [exact E|]. intros k Hk. cbv zeta. intros t Ht. apply (proj1 (K k Hk) t Ht).
+Qed.
+Print Assumptions C07_views_partial.
+
+(* non-vacuity: a nOS-V history: type, task, execute, pause, resume, end *)
+Definition chansV := DecodeDefs.mk_chans [DecodeDefs.M_OVNI; DecodeDefs.M_NOSV].
+Definition sxV : static :=
+  {| s_threads := [{| ti_tid := 7; ti_pid := 1; ti_loom := 0; ti_appid := 1; ti_rank := -1 |}];
+     s_cpus := [{| ci_virtual := false; ci_loom := 0; ci_index := 0 |}; {| ci_virtual := true; ci_loom := 0; ci_index := -1 |}];
+     s_chans := chansV; s_lint := false |}.
+Definition cfgV := DecodeDefs.nosv_cfg chansV.
+Example C07_ex_history :
+  match run_from sxV (init sxV)
+        [(10, 0%nat, EvOvni (Execute 0));
+         (11, 0%nat, EvTypeCreate 4 86 5 1234);
+         (12, 0%nat, EvTaskCreate 4 86 1 5 false true true false);
+         (13, 0%nat, EvTask cfgV 86 K_EXEC 1 0);
+         (14, 0%nat, EvTask cfgV 86 K_PAUSE 1 0);
+         (15, 0%nat, EvTask cfgV 86 K_RESUME 1 0);
+         (16, 0%nat, EvTask cfgV 86 K_END 1 0);
+         (17, 0%nat, EvTask cfgV 86 K_EXEC 1 0)] with
+  | Ok (st, _) => map (fun tk => map (fun b => (b_state b, b_on b)) (tk_bodies tk)) (tasks st)
+  | Err _ => []
+  end = [[(BRunning, Some 0%nat)]].
+Proof. vm_compute. reflexivity. Qed.
+Example C07_ex_twice_refused :
+  match run_from sxV (init sxV)
+        [(10, 0%nat, EvOvni (Execute 0)); (11, 0%nat, EvTypeCreate 4 86 5 1234);
+         (12, 0%nat, EvTaskCreate 4 86 1 5 false true true false);
+         (13, 0%nat, EvTask cfgV 86 K_EXEC 1 0); (14, 0%nat, EvTask cfgV 86 K_EXEC 1 0)] with
+  | Ok _ => true | Err _ => false end = false.
+Proof. vm_compute. reflexivity. Qed.
